@@ -95,6 +95,22 @@ CHECKS = {
         COSCHED_NOTE,
         "DESIGN.md section 2.1 and section 4, C11",
     ),
+    "C12": (
+        "cosched",
+        "stateless exhaustive schedule exploration of the real runtime with iterative "
+        "deviation bounding",
+        "Histories of one or two ServiceRunner instances plus a final fresh one: accept on the "
+        "main or a second thread, ended by shutdown() from an outside thread or a thread "
+        "payload, by SIGINT or by a failing payload of each flavour, at several instants after "
+        "`running`, with populations (none, sleeping coroutines, shielded cleanup, blocked "
+        "thread, concurrent submitter) and a concurrent accept of another instance; every "
+        "schedule within 1 (quick) / 2 (thorough) deviations. Oracle: the concurrent accept "
+        "raises RuntimeError and disturbs nothing, shutdown() returns and accept() returns "
+        "normally within accept_delay + cleanup + 1 virtual seconds, and after every kind of "
+        "end the next runner starts accepting.",
+        COSCHED_NOTE,
+        "DESIGN.md section 2.1 and section 4, C12",
+    ),
     "C17": (
         "smallscope",
         "bounded-exhaustive input enumeration against an independent line-protocol parser",
